@@ -29,7 +29,7 @@ import (
 
 func init() {
 	register("OptionCtors", extractOptionCtors)
-	register("PatternCache", extractPatternCache)
+	register("C04PatternCache", extractC04PatternCache)
 }
 
 func extractOptionCtors(repo string) (string, error) {
@@ -200,7 +200,7 @@ func extractOptionCtors(repo string) (string, error) {
 	return b.String(), nil
 }
 
-func extractPatternCache(repo string) (string, error) {
+func extractC04PatternCache(repo string) (string, error) {
 	fset := token.NewFileSet()
 	dir := filepath.Join(repo, "openapi3")
 	ents, err := os.ReadDir(dir)
@@ -286,11 +286,11 @@ func extractPatternCache(repo string) (string, error) {
 	}
 	sort.Slice(rows, func(i, j int) bool { return rows[i].pos < rows[j].pos })
 	var b strings.Builder
-	b.WriteString("-- GENERATED by go/cmd/extract (table PatternCache) from the repository under test. Do not edit.\n")
+	b.WriteString("-- GENERATED by go/cmd/extract (table C04PatternCache) from the repository under test. Do not edit.\n")
 	fmt.Fprintf(&b, "-- rows: %d\n", len(rows)+len(unrec))
 	b.WriteString("namespace KinModel.Gen\n\n/-- a use of the process-wide cache of compiled patterns -/\n")
-	b.WriteString("structure PatternCacheRow where\n  fn : String\n  op : String\n  detail : String\n  deriving DecidableEq, Repr\n\n")
-	b.WriteString("def patternCache : List PatternCacheRow := [\n")
+	b.WriteString("structure C04PatternCacheRow where\n  fn : String\n  op : String\n  detail : String\n  deriving DecidableEq, Repr\n\n")
+	b.WriteString("def c04PatternCache : List C04PatternCacheRow := [\n")
 	for i, r := range rows {
 		sep := ","
 		if i == len(rows)-1 {
@@ -298,7 +298,7 @@ func extractPatternCache(repo string) (string, error) {
 		}
 		fmt.Fprintf(&b, "  ⟨%q, %q, %q⟩%s -- %s\n", r.fn, r.op, r.detail, sep, r.pos)
 	}
-	b.WriteString("]\n\ndef patternCacheUnrecognised : List String := [")
+	b.WriteString("]\n\ndef c04PatternCacheUnrecognised : List String := [")
 	for i, u := range unrec {
 		if i > 0 {
 			b.WriteString(", ")
